@@ -25,6 +25,7 @@ var (
 	fCur     = flag.String("verif.cur", "", "file that always holds the case being executed")
 	fMaxRuns = flag.Int64("verif.maxruns", 0, "stop after this many runs (0: budget only)")
 	fDet     = flag.Int("verif.det", 0, "record result hashes of the first N runs")
+	fEngine  = flag.String("verif.engine", "", "run this engine instead of the one that serves the property (race phase)")
 	fRace    = flag.Bool("verif.race", false, "race-detector configuration of the engine (binary built with -race)")
 	fDump    = flag.String("verif.dumpcase", "", "debug: write the case with this hash as a replay file to dumpcase.json")
 )
@@ -80,6 +81,10 @@ func TestProp(t *testing.T) {
 		t.Skip("no -verif.prop")
 	}
 	engName, ok := Serves[*fProp]
+	if *fEngine != "" {
+		engName = *fEngine
+		_, ok = Engines[engName]
+	}
 	if !ok {
 		fmt.Fprintf(os.Stderr, "verif: no engine serves %s\n", *fProp)
 		os.Exit(2)
